@@ -327,4 +327,28 @@ def installer_scan(task):
                 wrong.append("row dated from %s in front of %s (line %d)" % (ast.unparse(ind)[:60], frame.id, n.lineno))
     res.append(dict(id="Backtest._process_data/pre-start-row-has-the-columns-and-first-date-of-the-frame-it-is-glued-to", kind="read", props=["C10", "C04", "C11"], verdict=("refuted" if wrong else ("proved" if glued else "unknown")),
                     backend="ast-scan", secs=0.0, func="bt.backtest.Backtest._process_data", model=dict(sites=wrong) if wrong else None, reason=None if glued else "no pd.concat([row, frame]) found"))
+    # the universe handed to the algos is the window up to now, cached per date (`_funiverse` under the key `_last_chk`): every function of the tree
+    # that stores a frame into the cache either stores the window cut at self.now under the key self.now, or drops the key (None) so that the next
+    # read cuts it again - a full frame left under a live key is served to the algos with every later row in it
+    sites, stores = [], 0
+    for q2, fi2 in sorted(prog.functions.items()):
+        if not q2.startswith("bt.core."):
+            continue
+        fn2 = fi2.node
+        asg = [a for a in ast.walk(fn2) if isinstance(a, ast.Assign) and any(ast.unparse(t) == "self._funiverse" for t in a.targets)]
+        if not asg:
+            continue
+        keys = [ast.unparse(a.value) for a in ast.walk(fn2) if isinstance(a, ast.Assign) and any(ast.unparse(t) == "self._last_chk" for t in a.targets)]
+        for a in asg:
+            stores += 1
+            v = a.value
+            window = (isinstance(v, ast.Subscript) and isinstance(v.value, ast.Attribute) and v.value.attr == "loc" and isinstance(v.slice, ast.Slice) and v.slice.lower is None
+                      and v.slice.upper is not None and ast.unparse(v.slice.upper) == "self.now" and v.slice.step is None)
+            if window and "self.now" in keys and len(set(keys)) == 1:
+                continue
+            if (not window) and keys and set(keys) == {"None"}:
+                continue
+            sites.append("%s line %d: self._funiverse = %s with cache key %s" % (q2.split(".", 2)[-1], a.lineno, ast.unparse(v)[:60], keys or "left as it was"))
+    res.append(dict(id="StrategyBase/universe-cache-holds-the-window-up-to-now-or-no-key", kind="read", props=["C04"], verdict=("refuted" if sites else ("proved" if stores else "unknown")), backend="ast-scan", secs=0.0,
+                    func="bt.core.StrategyBase.universe", model=dict(sites=sites) if sites else None, reason=None if stores else "no store into self._funiverse found"))
     return dict(results=res, samples=[dict(installers=list(INSTALLERS))])
